@@ -92,6 +92,14 @@ def step (st : St) (n : Nat) (line : String) : IO St := do
     match parseHex hx with
     | some bs => return { st with sBytes := st.sBytes ++ bs, lines := st.lines + 1 }
     | none => bad "unparsable hex"
+  | ["sjunk", hx] =>
+    -- a frame sent before the peer's Reset/Hello that the handshake must ignore: it has to be undecodable by the spec
+    match (if hx == "-" then some [] else parseHex hx) with
+    | some bs =>
+      match decode bs with
+      | .error _ => return { st with lines := st.lines + 1 }
+      | .ok _ => bad "the harness sent a decodable frame as junk"
+    | none => bad "unparsable hex"
   | "sret" :: "connect" :: r :: _ => return { st with sConnect := r }
   | "sret" :: "recv" :: r => return { st with sRecv := " ".intercalate r }
   | ["sret", "alive", a] => return { st with sAlive := a }
